@@ -31,7 +31,7 @@ AXES = {
     "step_limit": [None, 1, 3],
     "bounds": ["default", "enlarged"],
     "host_order": ["sorted", "reversed"],
-    "names": ["plain", "unsorted", "swapped"],
+    "names": ["plain", "unsorted", "swapped", "shared"],
 }
 AXIS_ORDER = list(AXES.keys())
 
@@ -118,7 +118,7 @@ def build(choice, name=None):
             continue
         seen_keys.add(key)
         d["prob"] = prob_of[int(nm[1])] if nm != "e0b" else prob_of[3]
-        d["cost"] = cost_of[int(nm[1])] if nm != "e0b" else 3
+        d["cost"] = cost_of[int(nm[1])] if nm != "e0b" else (0.75 if choice["cost"] == "frac" else 3)   # cheaper / dearer twin
         spec["exploits"][nm] = d
     pdefs = {
         "any_root": {"pe0": {"process": procs[0], "os": None, "access": ROOT}},
@@ -278,6 +278,11 @@ def build(choice, name=None):
         # names are labels: lists that are NOT in alphabetical order, names containing one another
         from .spec import rename_spec
         spec = rename_spec(spec, {"os0": "zos", "os1": "aos", "s0": "web", "s1": "aweb", "p0": "zproc", "p1": "proc"}, suffix="")
+    if choice.get("names") == "shared":
+        # one name used in several lists (an OS, a service and a process may all be called the same: the lists are
+        # separate name spaces), crossed so that equal names sit at DIFFERENT positions of their lists
+        from .spec import rename_spec
+        spec = rename_spec(spec, {"os1": "tomcat", "s0": "tomcat", "s1": "cron", "p0": "cron", "p1": "tomcat"}, suffix="")
     return spec
 
 
@@ -378,9 +383,38 @@ def shipped_spec(name):
     return spec_from_yaml_doc(doc, name=name)
 
 
+def api_specs():
+    """small scenarios with a SMALL action alphabet for the API-sequence exploration (mc/apiseq.py): a ring (one
+    subnet in scan range of two independent ones, non-zero discovery values), two entry points with a DMZ whose
+    service is blocked from the internet, and a 3-host chain with a step limit of 2 and a user- and a root-level
+    exploit for the same host.  They are also corner scenarios of the family, so the complete state graph of each
+    is validated against the reference model by every sweep-based check."""
+    base = {"shape": "1-1-1-1", "topo": "chain", "fw": "allow_all", "hostfw": "none", "sw": "1os1s1p",
+            "exploits": "e1e0", "privescs": "none", "prob": "half", "cost": "frac", "values": "pos_neg",
+            "discovery": "frac", "sensitive": "two_subnets", "step_limit": None, "bounds": "default",
+            "host_order": "sorted", "names": "plain"}
+    out = []
+    ring = build(base, name="api-ring")
+    ring["exploits"] = {"e1": ring["exploits"]["e1"]}                 # one root-level exploit, no escalation
+    ring["topology"][1][4] = ring["topology"][4][1] = 1               # 1-2-3-4-1
+    ring["firewall"][(1, 4)] = list(ring["services"]); ring["firewall"][(4, 1)] = list(ring["services"])
+    out.append(ring)
+    c = dict(base); c.update(shape="1-1-1", topo="two_public", sw="1os2s1p", exploits="e0e3", privescs="any_root",
+                             hostfw="deny_pivot", discovery="one", sensitive="last", fw="dmz_s1")
+    two = build(c, name="api-2pub")
+    two["topology"][1][3] = two["topology"][3][1] = 1                 # 3 is behind both entry points
+    two["firewall"][(1, 3)] = list(two["services"]); two["firewall"][(3, 1)] = list(two["services"])
+    two["exploits"]["e0"]["access"] = ROOT                              # (3, 0) runs s0 only and refuses it from (1, 0)
+    out.append(two)
+    c = dict(base); c.update(shape="2-1", topo="chain", exploits="e0e1", privescs="any_root", discovery="one",
+                             sensitive="last", step_limit=2, values="pos_neg")
+    out.append(build(c, name="api-limit"))
+    return out
+
+
 def corner_specs():
     """hand-picked scenarios, one per shortcut that the covering array may realise only weakly"""
-    out = []
+    out = list(api_specs())
 
     def mk(name, **kw):
         base = {"shape": "1-1", "topo": "chain", "fw": "allow_all", "hostfw": "none", "sw": "1os1s1p",
@@ -425,6 +459,8 @@ def corner_specs():
     out.append(sp)
     mk("corner-split-rules", shape="1-1-1", topo="star", fw="split", sw="1os2s1p", exploits="e0e3", sensitive="two_subnets")
     mk("corner-split-two-public", shape="1-1-1", topo="two_public", fw="split", sw="1os2s1p", exploits="e0e3")
+    mk("corner-shared-names", shape="1-2", sw="2os2s2p", exploits="e0e2", privescs="two", names="shared", sensitive="two_subnets",
+       prob="half")
     mk("corner-swapped-names", shape="1-2", sw="2os2s2p", exploits="e0e2", privescs="two", names="swapped", sensitive="two_subnets")
     mk("corner-tree4", shape="1-1-1-1", topo="star", sensitive="three", discovery="one", sw="2os2s2p", exploits="e0e1",
        privescs="two", hostfw="deny_other")
